@@ -40,9 +40,50 @@ func basicEvent(t types.Type, dir string) []string {
 	return []string{dir + "?" + t.String()}
 }
 
+// accumulators: the []byte expressions of a package that are appended to in place (`B = append(B, ...)`,
+// `B = bo.AppendUint32(B, ...)`): scratch buffers of an encoder.  Writing such a buffer out is a flush of
+// fields already counted at the appends, not a field of its own.
+var accumulatorsMemo = map[*packages.Package]map[string]bool{}
+
+func accumulators(pkg *packages.Package) map[string]bool {
+	if m, ok := accumulatorsMemo[pkg]; ok {
+		return m
+	}
+	m := map[string]bool{}
+	for _, f := range pkg.Syntax {
+		ast.Inspect(f, func(n ast.Node) bool {
+			as, ok := n.(*ast.AssignStmt)
+			if !ok || len(as.Lhs) != 1 || len(as.Rhs) != 1 {
+				return true
+			}
+			call, ok := as.Rhs[0].(*ast.CallExpr)
+			if !ok || len(call.Args) == 0 {
+				return true
+			}
+			name := types.ExprString(call.Fun)
+			if name != "append" && !strings.Contains(name, ".AppendUint") {
+				return true
+			}
+			if t := pkg.TypesInfo.TypeOf(as.Lhs[0]); t == nil || t.Underlying().String() != "[]byte" {
+				return true
+			}
+			if types.ExprString(as.Lhs[0]) == types.ExprString(call.Args[0]) {
+				m[types.ExprString(as.Lhs[0])] = true
+			}
+			return true
+		})
+	}
+	accumulatorsMemo[pkg] = m
+	return m
+}
+
 // mpclcEvents recognises the primitive writes/reads of the MPCLC codec.
 func mpclcEvents(pkg *packages.Package, call *ast.CallExpr) ([]string, bool) {
 	name := types.ExprString(call.Fun)
+	isBytes := func(e ast.Expr) bool {
+		t := pkg.TypesInfo.TypeOf(e)
+		return t != nil && t.Underlying().String() == "[]byte"
+	}
 	switch {
 	case name == "binary.Write" && len(call.Args) == 3:
 		// the value is either typed directly or an element of a []interface{} literal (handled by the range over data)
@@ -57,9 +98,29 @@ func mpclcEvents(pkg *packages.Package, call *ast.CallExpr) ([]string, bool) {
 		if t := pkg.TypesInfo.TypeOf(call.Args[2]); t != nil {
 			return basicEvent(t, "?"), true
 		}
+	case strings.HasSuffix(name, ".AppendUint16") && len(call.Args) == 2 && accumulators(pkg)[types.ExprString(call.Args[0])]:
+		return []string{"!U16"}, true
+	case strings.HasSuffix(name, ".AppendUint32") && len(call.Args) == 2 && accumulators(pkg)[types.ExprString(call.Args[0])]:
+		return []string{"!U32"}, true
+	case strings.HasSuffix(name, ".AppendUint64") && len(call.Args) == 2 && accumulators(pkg)[types.ExprString(call.Args[0])]:
+		return []string{"!U64"}, true
+	case name == "append" && len(call.Args) >= 2 && isBytes(call.Args[0]) && accumulators(pkg)[types.ExprString(call.Args[0])]:
+		if call.Ellipsis.IsValid() {
+			return []string{"!Bytes"}, true
+		}
+		var out []string
+		for range call.Args[1:] {
+			out = append(out, "!U8")
+		}
+		return out, true
 	case strings.HasSuffix(name, ".ReadByte") && len(call.Args) == 0:
 		return []string{"?U8"}, true
-	case name == "out.Write" && len(call.Args) == 1:
+	case strings.HasSuffix(name, ".Write") && len(call.Args) == 1 && isBytes(call.Args[0]):
+		if accumulators(pkg)[types.ExprString(call.Args[0])] {
+			return nil, true // flush of the scratch buffer
+		}
+		return []string{"!Bytes"}, true
+	case name == "io.WriteString" && len(call.Args) == 2:
 		return []string{"!Bytes"}, true
 	case (name == "r.Read" || name == "io.ReadFull"):
 		return []string{"?Bytes"}, true
